@@ -79,6 +79,7 @@ type ResolverCfg struct {
 //	write    body write of Data; Mode "bytes" (Write), "string" (WriteString), "readfrom" (ReadFrom)
 //	redirect Context.Redirect(Code, Val)
 //	panic    Mode "string" (panic(Val)), "error" (a fresh error value), "abort" (http.ErrAbortHandler)
+//	flush    Mode "flush" (http.Flusher.Flush) or "flusherror" (FlushError) on c.Writer()
 type Op struct {
 	Op   string  `json:"op"`
 	Key  string  `json:"key,omitempty"`
@@ -94,6 +95,7 @@ type Case struct {
 	Recovery   bool        `json:"recovery,omitempty"`
 	IgnoreTS   bool        `json:"ignore_ts,omitempty"`
 	ReaderFrom bool        `json:"reader_from,omitempty"`
+	Flusher    string      `json:"flusher,omitempty"` // how the underlying writer can flush: "" (not at all), "flush", "flusherror", "both"
 	Global     ResolverCfg `json:"global_resolver"`
 	Route      ResolverCfg `json:"route_resolver"`
 	Method     string      `json:"method"`
@@ -176,6 +178,59 @@ func (w underRF) ReadFrom(r io.Reader) (int64, error) {
 		w.body.Write(tmp.Bytes())
 	}
 	return n, err
+}
+
+// flushing behaves like net/http's: a flush sends the header, with the implicit 200 when the handler sent none.
+type uFL struct{ u *under }
+
+func (f uFL) Flush() { f.u.setFinal(http.StatusOK) }
+
+type uFE struct{ u *under }
+
+func (f uFE) FlushError() error { f.u.setFinal(http.StatusOK); return nil }
+
+func mkWriter(u *under, readerFrom bool, flusher string) http.ResponseWriter {
+	type rw = http.ResponseWriter
+	if readerFrom {
+		switch flusher {
+		case "flush":
+			return struct {
+				underRF
+				uFL
+			}{underRF{u}, uFL{u}}
+		case "flusherror":
+			return struct {
+				underRF
+				uFE
+			}{underRF{u}, uFE{u}}
+		case "both":
+			return struct {
+				underRF
+				uFL
+				uFE
+			}{underRF{u}, uFL{u}, uFE{u}}
+		}
+		return underRF{u}
+	}
+	switch flusher {
+	case "flush":
+		return struct {
+			*under
+			uFL
+		}{u, uFL{u}}
+	case "flusherror":
+		return struct {
+			*under
+			uFE
+		}{u, uFE{u}}
+	case "both":
+		return struct {
+			*under
+			uFL
+			uFE
+		}{u, uFL{u}, uFE{u}}
+	}
+	return rw(u)
 }
 
 // ---------------------------------------------------------------- capturing slog handler
@@ -266,6 +321,12 @@ func (r *run) play(c fox.Context, script []Op) {
 			}
 		case "redirect":
 			_ = c.Redirect(op.Code, op.Val)
+		case "flush":
+			if fl, ok := c.Writer().(http.Flusher); ok && op.Mode == "flush" {
+				fl.Flush()
+			} else {
+				_ = c.Writer().FlushError()
+			}
 		case "panic":
 			switch op.Mode {
 			case "error":
@@ -446,10 +507,7 @@ func serve(c *Case, withLogger bool) (*run, error) {
 		Proto: "HTTP/1.1", ProtoMajor: 1, ProtoMinor: 1, Header: http.Header{}, Host: c.Host,
 		RemoteAddr: c.RemoteAddr, RequestURI: c.Path, Body: http.NoBody,
 	}
-	var w http.ResponseWriter = r.w
-	if c.ReaderFrom {
-		w = underRF{r.w}
-	}
+	w := mkWriter(r.w, c.ReaderFrom, c.Flusher)
 	func() {
 		defer func() {
 			if v := recover(); v != nil {
@@ -831,6 +889,7 @@ var behaviours = []string{
 	"status", "status", "status", "status", "info-then-status", "body-only", "nothing", "info-only", "switching-protocols",
 	"redirect-with-location", "redirect-with-location", "redirect-without-location", "location-on-non-3xx",
 	"header-after-body", "two-statuses", "panic", "panic",
+	"flush-then-status", "flush-then-status", "status-then-flush", "flush-only",
 }
 
 func genScript(t *rapid.T, beh string) []Op {
@@ -891,6 +950,21 @@ func genScript(t *rapid.T, beh string) []Op {
 			Op{Op: "wh", Code: gen.Pick(t, []int{200, 201, 202, 299, 400, 404, 499, 500, 503}, "code")})
 	case "header-after-body":
 		s = append(s, genWrite(t), Op{Op: "wh", Code: genStatus(t)})
+	case "flush-then-status": // a stream opened first, then a status (http.Error after an upstream failure, say)
+		s = append(s, Op{Op: "flush", Mode: gen.Pick(t, []string{"flush", "flusherror"}, "flushMode")}, Op{Op: "wh", Code: genStatus(t)})
+		if rapid.Bool().Draw(t, "withBody") {
+			s = append(s, genWrite(t))
+		}
+	case "status-then-flush":
+		s = append(s, Op{Op: "wh", Code: genStatus(t)}, Op{Op: "flush", Mode: gen.Pick(t, []string{"flush", "flusherror"}, "flushMode")})
+		if rapid.Bool().Draw(t, "withBody") {
+			s = append(s, genWrite(t))
+		}
+	case "flush-only":
+		s = append(s, Op{Op: "flush", Mode: gen.Pick(t, []string{"flush", "flusherror"}, "flushMode")})
+		if gen.Chance(t, 1, 3, "thenBody") {
+			s = append(s, genWrite(t))
+		}
 	case "two-statuses":
 		s = append(s, Op{Op: "wh", Code: genStatus(t)}, Op{Op: "wh", Code: genStatus(t)})
 	case "panic":
@@ -915,6 +989,7 @@ func genCase(t *rapid.T) *Case {
 	c.Install = gen.Pick(t, installs, "install")
 	c.Recovery = gen.Chance(t, 1, 4, "recovery")
 	c.ReaderFrom = rapid.Bool().Draw(t, "readerFrom")
+	c.Flusher = gen.Pick(t, []string{"", "flush", "flusherror", "both"}, "flusher")
 	gi := gen.U(t, len(ipPool), "globalIP")
 	ri := (gi + 1 + gen.U(t, len(ipPool)-1, "routeIP")) % len(ipPool)
 	c.Global = genResolver(t, []string{"none", "none", "nil", "ok", "ok", "ok", "fail", "fail"}, gi, "globalResolver")
@@ -1018,6 +1093,10 @@ func TestSweep(t *testing.T) {
 					c.Script = append(c.Script, Op{Op: "hdr", Key: "Location", Val: "/elsewhere"})
 				}
 				c.Script = append(c.Script, Op{Op: "wh", Code: status})
+				c.Flusher = []string{"", "flush", "flusherror", "both"}[(status+ki+ri)%4]
+				if (status+ki)%5 == 0 {
+					c.Script = append(c.Script, Op{Op: "flush", Mode: []string{"flush", "flusherror"}[ri%2]})
+				}
 				stats.Eval()
 				if n++; n%700 == 1 {
 					stats.Sample(c)
